@@ -5,7 +5,7 @@ import props.cpu_common as cc
 
 MANIFEST = {
     "level": "proof",
-    "text": "All 24 methods of interrupts.Interrupts are verified against exact functional contracts (ReadIF = 0xE0|bits, Pending = IE&IF&0x1F != 0, ...). Over those contracts and the real next/checkInterrupts/handleInterrupt/rst/push code: L-dispatch - from any boundary state with IME set and IE&IF != 0 (IE, IF, registers symbolic) exactly 5 ExecuteMachineCycle calls later PC is 0x40+8*prio(IE&IF), PCh/PCl were written to SP-1/SP-2, SP decreased by 2, IME is clear, exactly the IF bit of the highest-priority pending interrupt is cleared, IE and all registers are unchanged and no opcode was fetched; L-nodispatch - the frame aspect of every opcode lemma (C01) proves that without IME&&pending the boundary leaves IF/IE/IME untouched and executes the instruction at PC; DI and RETI take effect immediately (opcode lemmas 0xF3, 0xD9); L-EI-delay - after EI with a request pending, the following instruction is fetched and executed before the dispatch, which then happens at the next boundary; EI;DI dispatches nothing. All lemmas quantify over every boundary state, including a pending delayed enable with IME either way: the dispatch lemma requires that no delayed enable survives a dispatch (IME stays clear inside the handler), and each opcode lemma uses the master enable in force (IME or an EI whose delay ends with this fetch).",
+    "text": "All 24 methods of interrupts.Interrupts are verified against exact functional contracts (ReadIF = 0xE0|bits, Pending = IE&IF&0x1F != 0, ...). Over those contracts and the real next/checkInterrupts/handleInterrupt/rst/push code: L-dispatch - from any boundary state with IME set and IE&IF != 0 (IE, IF, registers symbolic) exactly 5 ExecuteMachineCycle calls later PC is 0x40+8*prio(IE&IF), PCh/PCl were written to SP-1/SP-2, SP decreased by 2, IME is clear, exactly the IF bit of the highest-priority pending interrupt is cleared, IE and all registers are unchanged and no opcode was fetched; L-nodispatch - the frame aspect of every opcode lemma (C01) proves that without IME&&pending the boundary leaves IF/IE/IME untouched and executes the instruction at PC; DI and RETI take effect immediately (opcode lemmas 0xF3, 0xD9); L-EI-delay - after EI with a request pending, the following instruction is fetched and executed before the dispatch, which then happens at the next boundary; EI;DI dispatches nothing. All lemmas quantify over every boundary state, including a pending delayed enable with IME either way: the dispatch lemma requires that no delayed enable survives a dispatch (IME stays clear inside the handler), and each opcode lemma uses the master enable in force (IME or an EI whose delay ends with this fetch). The bus is not opaque for the two addresses the CPU itself consults: a store to FFFF or FF0F performed by an instruction or by the dispatch's pushes has the WriteIE / WriteIF effect on the interrupt registers, both in the executed code's world and in the specification, so a stack placed on IE/IF is covered (the vector is chosen from the registers as they are at the boundary, before the pushes).",
     "note": "Same trusted base as C01. Hardware raising further IF bits during the 5 dispatch cycles is outside the lemma (Interrupts is only modified by the CPU in that window). A built-in canary obligation (dispatch keeps IME) must fail on every run.",
     "technique": "function contracts for package interrupts + sequence lemmas over the real go/ssa of the CPU boundary logic; z3",
     "design_ref": "DESIGN.md section 4 C04",
